@@ -43,6 +43,8 @@ TRUSTED = [
     "replacements that change it change the number of invocations and are counted as skipped (see C06 probes)",
     "data-independent randomness (KMeans initial centres, tree structure, forest row partition) is fixed by an integer "
     "random_state and treated as a caller parameter",
+    "np.argsort's order among equal noisy class counts (GaussianNB count repair) is implementation defined; the Lean "
+    "model sorts stably and fits with tied noisy counts that need repair are skipped in the trace comparison",
 ]
 UNPROVED = [
     "PCA: the per-eigenvalue displacement and the spectral-norm displacement of the projected covariance are measured "
@@ -804,6 +806,13 @@ def check(ctx):
             if model == "kmeans" and kmeans_near_boundary(case):
                 ctx.boundary_skipped += 1
                 continue
+            if model == "gnb":
+                # np.argsort's order among EQUAL noisy counts is implementation defined (SIMD sorting networks are
+                # not stable); the count-repair loop then adjusts a different one of the tied classes
+                raw = [rc.result for rc in recD if rc.cls == "GeometricTruncated"]
+                if len(set(raw)) < len(raw) and sum(raw) != len(case["X"]):
+                    ctx.boundary_skipped += 1
+                    continue
             line = driver_line(case, fitted, recD, prD)
             if line is not None:
                 lines.append(line)
